@@ -737,43 +737,48 @@ def pattern_i32_to_i32(context, tree, c0):
 @isa.pattern("reg", "I8TOI16(reg)", size=4)
 @isa.pattern("reg", "I8TOI32(reg)", size=4)
 def pattern_i8_to_i32(context, tree, c0):
-    context.emit(Slli(c0, c0, 24))
-    context.emit(Srai(c0, c0, 24))
-    return c0
+    d = context.new_reg(RiscvRegister)
+    context.emit(Slli(d, c0, 24))
+    context.emit(Srai(d, d, 24))
+    return d
 
 
 @isa.pattern("reg", "I16TOI32(reg)", size=4)
 def pattern_i16_to_i32(context, tree, c0):
-    context.emit(Slli(c0, c0, 16))
-    context.emit(Srai(c0, c0, 16))
-    return c0
+    d = context.new_reg(RiscvRegister)
+    context.emit(Slli(d, c0, 16))
+    context.emit(Srai(d, d, 16))
+    return d
 
 
 @isa.pattern("reg", "I8TOU16(reg)", size=4)
 @isa.pattern("reg", "U8TOU16(reg)", size=4)
 @isa.pattern("reg", "U8TOI16(reg)", size=4)
 def pattern_8_to_16(context, tree, c0):
-    context.emit(Slli(c0, c0, 24))
-    context.emit(Srli(c0, c0, 24))
-    return c0
+    d = context.new_reg(RiscvRegister)
+    context.emit(Slli(d, c0, 24))
+    context.emit(Srli(d, d, 24))
+    return d
 
 
 @isa.pattern("reg", "I8TOU32(reg)", size=4)
 @isa.pattern("reg", "U8TOU32(reg)", size=4)
 @isa.pattern("reg", "U8TOI32(reg)", size=4)
 def pattern_8_to_32(context, tree, c0):
-    context.emit(Slli(c0, c0, 24))
-    context.emit(Srli(c0, c0, 24))
-    return c0
+    d = context.new_reg(RiscvRegister)
+    context.emit(Slli(d, c0, 24))
+    context.emit(Srli(d, d, 24))
+    return d
 
 
 @isa.pattern("reg", "I16TOU32(reg)", size=4)
 @isa.pattern("reg", "U16TOU32(reg)", size=4)
 @isa.pattern("reg", "U16TOI32(reg)", size=4)
 def pattern_16_to_32(context, tree, c0):
-    context.emit(Slli(c0, c0, 16))
-    context.emit(Srli(c0, c0, 16))
-    return c0
+    d = context.new_reg(RiscvRegister)
+    context.emit(Slli(d, c0, 16))
+    context.emit(Srli(d, d, 16))
+    return d
 
 
 @isa.pattern("reg", "I32TOI8(reg)", size=0)
@@ -1104,8 +1109,9 @@ def pattern_ldr32_reg(context, tree, c0):
 @isa.pattern("reg", "NEGI32(reg)", size=2)
 @isa.pattern("reg", "NEGU32(reg)", size=2)
 def pattern_negi32(context, tree, c0):
-    context.emit(Subr(c0, R0, c0))
-    return c0
+    d = context.new_reg(RiscvRegister)
+    context.emit(Subr(d, R0, c0))
+    return d
 
 
 @isa.pattern("reg", "INVI8(reg)", size=2)
@@ -1113,8 +1119,9 @@ def pattern_negi32(context, tree, c0):
 @isa.pattern("reg", "INVU32(reg)", size=2)
 @isa.pattern("reg", "INVI32(reg)", size=2)
 def pattern_inv(context, tree, c0):
-    context.emit(Xori(c0, c0, -1))
-    return c0
+    d = context.new_reg(RiscvRegister)
+    context.emit(Xori(d, c0, -1))
+    return d
 
 
 @isa.pattern("reg", "LDRU16(reg)", size=2)
